@@ -126,6 +126,14 @@ def zz(it, st, args, fname):
     if name == 'AllocLimit':
         st.alloc_limit = it.concrete_int(st, args[0], 'alloc limit')
         return ret(st)
+    if name == 'Implies':
+        return ret(st, Or(Not(args[0]), args[1]))
+    if name == 'And':
+        return ret(st, And(args[0], args[1]))
+    if name == 'Or':
+        return ret(st, Or(args[0], args[1]))
+    if name == 'IteU64' or name == 'IteInt':
+        return ret(st, ite_bv(args[0], args[1], args[2], 64))
     if name == 'Symbolic':
         return ret(st, True)
     raise Unsupported('zzvrt.' + name)
